@@ -353,6 +353,40 @@ def check_select(chk, items, mechanism):
                                   f"list(schema[{t!r}]) = {names} but the type has fields {want}", rep)
 
 
+def check_derivations(chk, rng, items, mechanism="select-derivations"):
+    """A filtered schema is a value: deriving further schemas from it (`q.include(...)`, `q.exclude(...)`, several
+    children of one parent) must not change what the parent — or any sibling — offers.  Every schema of a derivation
+    tree is inspected again after the whole tree has been built and judged against its OWN filters."""
+    for it in items:
+        specs = it["specs"]
+        if len(specs) < 2:
+            continue
+        tree = [(it["schema"], [])]            # (schema, filters applied on the way from the root)
+        for sp in specs:
+            parent, applied = tree[rng.randrange(len(tree))] if rng.random() < 0.4 else tree[-1]
+            child, got = apply_filters(parent, [sp])
+            if got:
+                tree.append((child, applied + got))
+        if len(tree) < 3:
+            continue
+        roots = py_root_fields(it["schema"])
+        path = it["schema"].base_path
+        for idx, (schema, applied) in enumerate(tree):
+            offered = [op_triple(r.ok()) for r in schema.get_all_operations()]
+            stat = schema.statistic.operations
+            expected = [o for o in roots if py_passes(applied, f"{o[1]}.{o[2]}", path)]
+            chk.case(mechanism, key=[it.get("sdl"), applied, idx], nontrivial=bool(applied),
+                     sample={"filters_of_this_schema": applied, "offered": offered, "tree_size": len(tree)})
+            chk.feature(f"{mechanism}:depth={min(len(applied), 3)}")
+            if offered != expected or stat.selected != len(expected):
+                chk.violation("C20:include/exclude:schema-offers-other-operations-after-further-schemas-were-derived-from-it",
+                              f"schema {idx} of a derivation tree with filters {applied} offers {offered} "
+                              f"(selected {stat.selected}); its own filters admit {expected}; all filters given in the tree: "
+                              f"{[a for _, a in tree]}",
+                              {"kind": "derivations", "sdl": it.get("sdl"), "filters_of_this_schema": applied,
+                               "tree": [a for _, a in tree], "offered": offered, "expected": expected})
+
+
 def classify_lookup(chk, raw, mraw, history, impl, m, variant, mechanism):
     wire = {"raw": mraw, "history": history}
     model = m[variant]
@@ -1407,6 +1441,7 @@ def run(chk):
         items.append({"schema": schema, "sdl": sdl, "base_url": base_url,
                       "specs": gen_filter_specs(rng, labels, schema.base_path)})
     check_select(chk, items, "select")
+    check_derivations(chk, rng, items)
     items = []
     for _ in range(chk.budget(120, 1200)):
         desc = c20_sdl.index_desc(rng)
